@@ -69,6 +69,14 @@ impl T {
 }
 
 /// statements that build `u` and `v` with every equal container sub-term built once
+/// like `shared_build`, but sub-terms are shared inside each operand only
+fn shared_build_separate(u: &T, v: &T) -> String {
+    let a = shared_build(u, &T::Null).replace("v := null\n", "").replace("t", "ta");
+    let b = shared_build(&T::Null, v).replace("u := null\n", "").replace("t", "tb");
+    // `replace("t", ..)` also hits the keyword-free literals `true`: undo
+    format!("{}{}", a.replace("tarue", "true"), b.replace("tbrue", "true"))
+}
+
 fn shared_build(u: &T, v: &T) -> String {
     fn go(t: &T, names: &mut HashMap<T, String>, out: &mut String) -> String {
         match t {
@@ -393,11 +401,12 @@ impl Check for C10 {
                 for i in i0..(i0 + 8).min(m) {
                     for j in 0..m {
                         let (u, v) = (&vals[i], &vals[j]);
-                        let variants: &[u32] = if is_pool { &[0, 1, 2] } else { &[0, 1] };
+                        let variants: &[u32] = if is_pool { &[0, 1, 2, 3] } else { &[0, 1, 3] };
                         for &var in variants {
                             let build = match var {
                                 0 => format!("u := {}\nv := {}\n", u.lit(false), v.lit(false)),
                                 1 => shared_build(u, v),
+                                3 => shared_build_separate(u, v),
                                 _ => format!("u := {}\nv := {}\n", u.lit(true), v.lit(true)),
                             };
                             let dump = if u.has_func() || v.has_func() { "" } else { "print(u)\nprint(v)\n" };
@@ -545,6 +554,7 @@ fn variant_name(v: u32) -> &'static str {
     match v {
         0 => "operands built separately",
         1 => "equal sub-terms shared",
+        3 => "equal sub-terms shared inside each operand",
         _ => "object keys written in reverse order",
     }
 }
